@@ -1,6 +1,7 @@
 package main
 
 import (
+	"bytes"
 	"fmt"
 	"regexp"
 	"regexp/syntax"
@@ -29,7 +30,7 @@ func checkC20(r *Report, known []Finding) {
 	}
 	// ---- (a) + (b)
 	ta := r.Tie("lazy DFA MemoryUsage <= capacity + one state (Cx.C20.C20_cache_bound)")
-	tb := r.Tie("backtracker len(Visited) <= MaxVisitedSize")
+	tb := r.Tie("backtracker cap(Visited) <= MaxVisitedSize, for every history of input sizes")
 	for i := 0; i < np; i++ {
 		rng := root.Fork(uint64(i) + 1)
 		p := patternSource(rng, i, GenOpts{MaxDepth: 2})
@@ -88,10 +89,32 @@ func checkC20(r *Report, known []Finding) {
 			}
 			guard(10*time.Second, func() string { bt.SearchAtWithState(h, 0, st); bt.IsMatchWithState(h, st); return "" })
 			tb.Cases++
-			if len(st.Visited) > bt.MaxVisitedSize() {
+			// what the state HOLDS is the capacity of the table, not the length in use
+			if cap(st.Visited) > bt.MaxVisitedSize() {
 				tb.Disagreements++
-				r.Violate(fmt.Sprintf("backtracker visited table of %q has %d entries, cap %d", p, len(st.Visited), bt.MaxVisitedSize()),
-					map[string]any{"pattern": p, "visited": len(st.Visited), "cap": bt.MaxVisitedSize()}, false)
+				r.Violate(fmt.Sprintf("backtracker visited table of %q holds %d entries (len %d), limit %d", p, cap(st.Visited), len(st.Visited), bt.MaxVisitedSize()),
+					map[string]any{"pattern": p, "visited_cap": cap(st.Visited), "visited_len": len(st.Visited), "limit": bt.MaxVisitedSize()}, false)
+			}
+		}
+		// histories of growing inputs up to the largest admitted one: however the table grows (exactly, geometrically), it must stay
+		// within the limit — the memory a Regex holds must not depend on the ORDER in which input sizes arrived
+		if maxIn := bt.MaxInputSize(); maxIn > 8 {
+			for _, hist := range [][]int{{maxIn * 3 / 5, maxIn}, {maxIn / 2, maxIn*3/4 + 1, maxIn}, {1, maxIn / 3, maxIn*2/3 + 1, maxIn - 1}} {
+				st2 := nfa.NewBacktrackerState()
+				for _, ln := range hist {
+					if ln < 0 || !bt.CanHandle(ln) {
+						continue
+					}
+					h := bytes.Repeat([]byte("hello_wide_world "), ln/17+1)[:ln]
+					guard(20*time.Second, func() string { bt.SearchAtWithState(h, 0, st2); return "" })
+					tb.Cases++
+					if cap(st2.Visited) > bt.MaxVisitedSize() {
+						tb.Disagreements++
+						r.Violate(fmt.Sprintf("backtracker visited table of %q holds %d entries after searching inputs of lengths %v (limit %d)", p, cap(st2.Visited), hist, bt.MaxVisitedSize()),
+							map[string]any{"pattern": p, "visited_cap": cap(st2.Visited), "history_lengths": hist, "limit": bt.MaxVisitedSize()}, false)
+						break
+					}
+				}
 			}
 		}
 	}
@@ -201,6 +224,32 @@ func checkC20(r *Report, known []Finding) {
 				name string
 				f    func()
 			}{name + "(100KB)", f})
+		}
+		// AppendAllIndex into a caller-supplied buffer that is exactly sufficient, on a long haystack with few matches: the result
+		// must live IN that buffer (no allocation, same backing array), whatever the length of the haystack suggests
+		{
+			long := append(bytes.Repeat([]byte{0}, 7000), hays[3]...)
+			if ms := regexp.MustCompile(p).FindAllIndex(long, -1); len(ms) > 0 && len(ms) <= 48 {
+				fixed := make([][2]int, 0, len(ms)+1)
+				var res [][2]int
+				aliased := true
+				calls = append(calls, struct {
+					name string
+					f    func()
+				}{"AppendAllIndex(exact buffer, 7KB)", func() {
+					res = cx.AppendAllIndex(fixed[:0], long, -1)
+					if len(res) > 0 && &res[0] != &fixed[:1][0] {
+						aliased = false
+					}
+				}})
+				defer func(p string) {
+					if !aliased {
+						td.Disagreements++
+						r.Violate(fmt.Sprintf("AppendAllIndex on %q ignores a sufficient caller buffer (cap %d for %d matches) on a 7 KB haystack: the result is a fresh slice", p, cap(fixed), len(ms)),
+							map[string]any{"pattern": p, "buffer_cap": cap(fixed), "matches": len(ms), "haystack": "7000 x 0x00 + " + fmt.Sprintf("%q", hays[3])}, false)
+					}
+				}(p)
+			}
 		}
 		for _, c := range calls {
 			c.f()
